@@ -14,6 +14,7 @@ From PV Require Import Extract.RunC11.
 From PV Require Import Extract.RunC16.
 From PV Require Import Extract.RunC14.
 From PV Require Import Extract.RunC07.
+From PV Require Import Extract.RunGLR.
 Import ListNotations.
 Local Open Scope N_scope.
 
@@ -162,5 +163,7 @@ Definition run (cmd : N) (arg : sx) : sx :=
   | 141 => run_c14_1 arg
   | 142 => run_c14_2 arg
   | 143 => run_c14_3 arg
+  | 210 => run_glr_210 arg
+  | 211 => run_glr_211 arg
   | _ => L [A 999999]
   end.
